@@ -272,3 +272,61 @@ REG.add(Contract("RuleViolationBaseDetector.get_rule_violation", module=M_RVD, k
 REG.macro("any_violation", ["r"], " or ".join(f"nonempty(r.{b})" for b in BUCKETS))
 REG.add(Contract("RuleViolations.__bool__", module=M_RV, kind="method", params=dict(self="RuleViolations"),
                  returns="Bool", defn="any_violation(self)", properties=["C01", "C12"]))
+
+# ---------------------------------------------------------------- ModuleNameConverter (C11, C13)
+M_MNC = "pytestarch.eval_structure.module_name_converter"
+import z3 as _z3
+from pyvc.vals import Node as _Node, V as _V
+_f_matches = _z3.Function("re_matches", _Node, _Node, _z3.BoolSort())
+
+
+@REG.specfun("re_matches")
+def _re_matches(eng, st, pattern, name):
+    """re.match(re.compile(pattern), name) is not None -- uninterpreted: only its extension matters, so every
+    lemma that mentions it holds for whatever the regex engine does."""
+    return _V(("bool",), _f_matches(pattern.x, name.x))
+
+
+REG.add(Contract("ModuleNameConverter._name_matches_pattern", module=M_MNC, kind="classmethod", status="assumed",
+                 params=dict(pattern_to_match="Node", name="Node"), returns="Bool",
+                 defn="re_matches(pattern_to_match, name)", note="re.compile/re.match: uninterpreted"))
+REG.add(Contract("ModuleNameConverter._split_modules_by_presence_of_regex_pattern", module=M_MNC, kind="classmethod",
+                 params=dict(modules="Bag[Filter]"), returns="Tuple[Bag[Filter],Bag[Filter]]",
+                 ensures=["forall(Filter, lambda f: (f in result[0]) == ((f in modules) and is_regex(f)))",
+                          "forall(Filter, lambda f: (f in result[1]) == ((f in modules) and not is_regex(f)))"],
+                 locals=dict(modules_with_regex_name_pattern="Bag[Filter]", other_modules="Bag[Filter]"),
+                 loops={0: dict(sig="for module in modules", invariant=[
+                     "forall(Filter, lambda f: (f in modules_with_regex_name_pattern) == ((f in seen) and is_regex(f)))",
+                     "forall(Filter, lambda f: (f in other_modules) == ((f in seen) and not is_regex(f)))"])},
+                 properties=["C11", "C13"]))
+REG.macro("regex_unmatched", ["g", "F"], "exists(Filter, lambda f: (f in F) and is_regex(f) and not exists(Node, lambda m: node(g, m) and re_matches(fid(f), m)))")
+REG.macro("conv_member", ["g", "F", "f"],
+          "((f in F) and not is_regex(f)) or (is_name(f) and node(g, fid(f)) and exists(Filter, lambda r: (r in F) and is_regex(r) and re_matches(fid(r), fid(f))))")
+REG.add(Contract(
+    "ModuleNameConverter.convert", module=M_MNC, kind="classmethod",
+    params=dict(modules="Bag[Filter]", arch="EvaluableArchitectureGraph"), returns="Tuple[Bag[Filter],Dict[Node,Bag[Mod]]]",
+    requires=["WF(arch._graph)"],
+    # C11/C13: a regex that matches no module raises (never a verdict); nothing else can go wrong here
+    raises=[("ImpossibleMatch", "regex_unmatched(arch._graph, modules)")],
+    ensures=[
+        "forall(Filter, lambda f: (f in result[0]) == conv_member(arch._graph, modules, f))",
+        "forall(Node, lambda k: (k in result[1]) == exists(Filter, lambda r: (r in modules) and is_regex(r) and fid(r) == k))",
+        "forall(Node, Mod, lambda k, x: implies(k in result[1], (x in result[1][k]) == ((not is_group(x)) and node(arch._graph, mid(x)) and re_matches(k, mid(x)))))",
+    ],
+    locals=dict(never_matched="Set[Node]", converted_module_filters="Set[Filter]", conversion_mapping="DDict[Node,Bag[Mod]]",
+                matching_submodules="Set[Node]", module_names_that_need_to_be_matched="Bag[Node]"),
+    loops={
+        0: dict(sig="for actually_present_module in arch.modules", invariant=[
+            "forall(Node, lambda k: (k in never_matched) == (exists(Filter, lambda r: (r in modules) and is_regex(r) and fid(r) == k) and not exists(Node, lambda m: (m in seen) and re_matches(k, m))))",
+            "forall(Filter, lambda f: (f in converted_module_filters) == (is_name(f) and (fid(f) in seen) and exists(Filter, lambda r: (r in modules) and is_regex(r) and re_matches(fid(r), fid(f)))))",
+            "forall(Node, lambda k: (k in conversion_mapping) == (exists(Filter, lambda r: (r in modules) and is_regex(r) and fid(r) == k) and exists(Node, lambda m: (m in seen) and re_matches(k, m))))",
+            "forall(Node, Mod, lambda k, x: implies(k in conversion_mapping, (x in conversion_mapping[k]) == ((not is_group(x)) and (mid(x) in seen) and re_matches(k, mid(x)))))",
+        ]),
+        1: dict(sig="for module_to_match in module_names_that_need_to_be_matched", invariant=[
+            "forall(Node, lambda k: (k in never_matched) == ((k in pre(never_matched)) and not ((k in seen) and re_matches(k, actually_present_module))))",
+            "forall(Filter, lambda f: (f in converted_module_filters) == ((f in pre(converted_module_filters)) or (f == mk_filter_name(actually_present_module) and exists(Node, lambda k: (k in seen) and re_matches(k, actually_present_module)))))",
+            "forall(Node, lambda k: (k in conversion_mapping) == ((k in pre(conversion_mapping)) or ((k in seen) and re_matches(k, actually_present_module))))",
+            "forall(Node, Mod, lambda k, x: implies(k in conversion_mapping, (x in conversion_mapping[k]) == (((k in pre(conversion_mapping)) and (x in pre(conversion_mapping)[k])) or ((k in seen) and re_matches(k, actually_present_module) and x == mk_mod(False, actually_present_module)))))",
+        ]),
+    },
+    properties=["C11", "C13", "C01"]))
